@@ -8,6 +8,10 @@ import EG.Props.C06
 import EG.Props.C07
 import EG.Props.C08
 import EG.Props.C09
+import EG.Props.C11
+import EG.Props.C12
+import EG.Props.C13
 import EG.Props.C17
 import EG.Props.C18
 import EG.Props.C19
+import EG.Props.C20
